@@ -51,6 +51,12 @@ func c01Child(c c01Case, k *sim.Kind, ns, name, v string) kit.M {
 	o := kit.Obj(k, ns, name)
 	kit.Field(o, v, "spec", "v")
 	kit.Field(o, kit.L{"a", "b"}, "spec", "args") // a plain (non list-map) array the hook specifies
+	if name != "a" {
+		kit.Ann(o, "ex.io/note", "set-by-the-hook") // some children carry annotations of the hook's own
+		if !c.Cluster && ns == "n1" {
+			delete(o["metadata"].(kit.M), "namespace") // ... and leave the namespace to be defaulted to the parent's
+		}
+	}
 	return c01Labels(c, o)
 }
 
@@ -98,6 +104,14 @@ func c01Program(c c01Case, hook string, cns string) c01Prog {
 		}
 		if c.TwoKinds && hook != "static0" {
 			out = append(out, c01Child(c, kit.Widget, cns, "w", "1"))
+		}
+		if c.GenSel {
+			// a hook that echoes the labels of what it observed returns the generated label itself
+			for _, o := range out {
+				if om := o.(kit.M); kit.Name(om) == "b" {
+					kit.Labels(om, "controller-uid", kit.Str(req, "parent", "metadata", "uid"))
+				}
+			}
 		}
 		if c.Cluster && c.OtherNS {
 			// a cluster-scoped parent with children in two namespaces: every desired Leaf has a twin with the
@@ -291,7 +305,11 @@ func c01Run(c c01Case) []mc.Finding {
 	want := map[string]kit.M{}
 	for _, d := range desired {
 		dm := d.(kit.M)
-		want[kit.Str(dm, "kind")+"/"+kit.NS(dm)+"/"+kit.Name(dm)] = dm
+		ns := kit.NS(dm)
+		if ns == "" && !c.Cluster {
+			ns = pns // a child returned without a namespace belongs in the parent's
+		}
+		want[kit.Str(dm, "kind")+"/"+ns+"/"+kit.Name(dm)] = dm
 	}
 	got := map[string]kit.M{}
 	for _, k := range kinds {
